@@ -5,6 +5,7 @@ package worker
 
 import (
 	"context"
+	"fmt"
 	"sync"
 
 	"github.com/thanos-community/promql-engine/execution/model"
@@ -38,6 +39,8 @@ type input struct {
 
 type Worker struct {
 	ctx context.Context
+	// err is set by the worker goroutine before it sends its output.
+	err error
 
 	workerID int
 	input    chan *input
@@ -71,9 +74,21 @@ func (w *Worker) start(done doneFunc, ctx context.Context) {
 			if !ok {
 				return
 			}
-			w.output <- w.doWork(w.workerID, task.arg, task.in)
+			w.output <- w.runTask(task)
 		}
 	}
+}
+
+// runTask executes the task and converts a panic into an error that is
+// returned by GetOutput, instead of crashing the process.
+func (w *Worker) runTask(task *input) (out model.StepVector) {
+	defer func() {
+		if r := recover(); r != nil {
+			w.err = fmt.Errorf("unexpected error: %v", r)
+			out = model.StepVector{}
+		}
+	}()
+	return w.doWork(w.workerID, task.arg, task.in)
 }
 
 func (w *Worker) Send(arg float64, in model.StepVector) error {
@@ -92,6 +107,10 @@ func (w *Worker) GetOutput() (model.StepVector, error) {
 	case <-w.ctx.Done():
 		return model.StepVector{}, w.ctx.Err()
 	default:
-		return <-w.output, nil
+		out := <-w.output
+		if w.err != nil {
+			return model.StepVector{}, w.err
+		}
+		return out, nil
 	}
 }
